@@ -13,4 +13,12 @@ theorem simpleStart_tail (frags : List (List Str)) (stack : List (Nat × Nat)) (
   simp only []
   (repeat' split) <;> rfl
 
+/-- GenericStrategy pushes exactly one entry per START (none when its root entry is gone) -/
+theorem genStart_tail (steps : List (GAxis × GTest)) (gstack : List (List Nat)) (name : Str) :
+    (genStart steps gstack name).1.tail = gstack.tail ∨ (genStart steps gstack name).1.tail = gstack := by
+  unfold genStart
+  cases gstack with
+  | nil => left; rfl
+  | cons top rest => right; rfl
+
 end Genshi.Match
